@@ -278,7 +278,25 @@ def _unroll_while(eng, node, st, fr, k):
             elif z3.is_false(c2):
                 c = False
             else:
-                raise Unsupported(f"while loop at line {node.lineno} has a symbolic condition and no invariant")
+                # a symbolic condition without an invariant: unroll with a case split, up to a small bound (the loop must
+                # then be bounded by something concrete on the path, e.g. a counter - otherwise it needs an invariant)
+                if k > 8:
+                    raise Unsupported(f"while loop at line {node.lineno} has a symbolic condition, no invariant, and does not end within 8 unrollings")
+                for st1b, b in eng.branch(c2, st1):
+                    if not b:
+                        if node.orelse:
+                            yield from eng.exec_block(node.orelse, st1b, fr)
+                        else:
+                            yield st1b, None
+                        continue
+                    for st2, ex in eng.exec_block(node.body, st1b, fr):
+                        if ex is None or ex[0] == "continue":
+                            yield from _unroll_while(eng, node, st2, fr, k + 1)
+                        elif ex[0] == "break":
+                            yield st2, None
+                        else:
+                            yield st2, ex
+                continue
         if not c:
             if node.orelse:
                 yield from eng.exec_block(node.orelse, st1, fr)
